@@ -5,6 +5,7 @@ import (
 	"go/token"
 	"go/types"
 	"math/big"
+	"sort"
 	"strings"
 
 	"golang.org/x/tools/go/ssa"
@@ -43,12 +44,13 @@ func (e *Encoder) clauseInMode(c Clause) bool {
 
 // Verify encodes fn. seed (may be nil) pre-registers the memory maps a previous pass discovered, so
 // that havoc-with-frame operations emitted early already cover maps first touched later.
-func (p *Program) Verify(fn *ssa.Function, fc *FuncContract, mode Mode, primary, dual bool, seed map[string]string) (enc *Encoder) {
+func (p *Program) Verify(fn *ssa.Function, fc *FuncContract, mode Mode, primary, dual bool, seed map[string]string, ordSeed map[string][]ssa.Instruction) (enc *Encoder) {
 	e := &Encoder{prog: p, fn: fn, fc: fc, mode: mode, primary: primary, dual: dual, c: NewCtx(mode, p.specs), vals: map[ssa.Value]Val{},
 		pcs: map[*ssa.BasicBlock]string{}, exit: map[*ssa.BasicBlock]*State{}, counts: map[string]int{},
 		labels: map[string]*Env{}, ghost: map[string]Val{}, pkg: fn.Pkg.Pkg,
 		siteCounts: map[string]int{}, siteHit: map[string]bool{}, closures: map[string]*ssa.MakeClosure{}, arrSlices: map[string]arrSlice{},
-		ranges: map[*ssa.Range]rangeIter{}, usedContracts: map[string]bool{}, usedStdlib: map[string]bool{}}
+		ranges: map[*ssa.Range]rangeIter{}, usedContracts: map[string]bool{}, usedStdlib: map[string]bool{},
+		ordLog: map[string][]ssa.Instruction{}, ordSeed: ordSeed}
 	defer func() {
 		if r := recover(); r != nil {
 			if ee, ok := r.(elabErr); ok {
@@ -379,6 +381,7 @@ func (e *Encoder) block(b *ssa.BasicBlock) {
 		if _, ok := in.(*ssa.Phi); ok {
 			continue
 		}
+		e.curInstr = in
 		e.instr(in, st, pc)
 	}
 	e.exit[b] = st
@@ -456,6 +459,19 @@ func (e *Encoder) loopHeader(li *loopInfo, b *ssa.BasicBlock, st *State, pc stri
 				}
 				c.assume(fmt.Sprintf("(forall ((p!f Loc)) (! (=> %s (= (select %s p!f) (select %s p!f))) :pattern ((select %s p!f))))", cond, n, cur, n))
 			}
+			st.mem[k] = n
+		}
+		// maps updated in the loop: their (domain, value) memories are havoc'd per map type
+		var mks []string
+		for k := range e.loopMapKeys {
+			mks = append(mks, k)
+		}
+		sort.Strings(mks)
+		for _, k := range mks {
+			srt := e.loopMapKeys[k]
+			n := c.fresh("M_" + k)
+			c.declare(n, srt)
+			c.memSorts[k] = srt
 			st.mem[k] = n
 		}
 		e.bumpCtr(st)
